@@ -37,7 +37,7 @@ inductive Op where
   deriving Repr
 
 def stepOp (T : Tun) (F : SecFns ρ) (st : Store ρ) (acc : Acc) : Op → Store ρ × Acc
-  | .new id k hra => (st.set id (Sketch.new T F k hra), acc)
+  | .new id k hra => (st.set id (Sketch.new T F k hra acc.peek), acc.drawIf T.initCoinRandom 0)
   | .upd id x =>
     match st.get id with
     | some s => let r := s.update T F x acc; (st.set id r.1, r.2)
